@@ -53,6 +53,14 @@ func (vc *VC) run() (err error) {
 		}
 		vc.assume(st, t)
 	}
+	for _, h := range vc.spec.Holds {
+		t, err := env.compileBool(h.E)
+		if err != nil {
+			return fmt.Errorf("%s holds#%d: %v", vc.key, h.N, err)
+		}
+		vc.assume(st, t)
+		vc.assumedUse["visible-state type invariant assumed at entry of "+vc.key+": "+h.Text+" (writers re-establish it: writer-closure obligation)"] = true
+	}
 	for _, u := range vc.spec.Uses {
 		t, err := vc.lemmaInstance(env, u.E.(*ECall))
 		if err != nil {
